@@ -21,9 +21,9 @@ pub fn prop() -> Prop {
         ],
         subs: vec![
             Sub::enumerate("triangles_grid", triangles_grid),
-            Sub::tape("triangles_random", 16, 150_000, 7_500_000, triangles_random),
-            Sub::tape("triangles_large", 16, 3_000, 150_000, triangles_large),
-            Sub::tape("polylines", 40, 200_000, 10_000_000, polylines),
+            Sub::tape("triangles_random", 32, 150_000, 7_500_000, triangles_random),
+            Sub::tape("triangles_large", 32, 3_000, 150_000, triangles_large),
+            Sub::tape("polylines", 64, 200_000, 10_000_000, polylines),
         ],
     }
 }
